@@ -215,6 +215,9 @@ func runC15(w *fw.Worker) {
 			}
 		}
 	}
+	if w.Shard == 0 || w.NShards == 1 {
+		c15DeclaredTypes(w)
+	}
 	states := map[string]bool{}
 	for pi, hs := range progs {
 		if w.Expired() {
@@ -289,6 +292,61 @@ func runC15(w *fw.Worker) {
 	}
 }
 
+// c15DeclaredTypes: a handler whose parameter (named or '_') is declared with a type other than the event's payload type. Such a
+// declaration is a static error; whatever the parser decides, a handler of an ACCEPTED program runs exactly once per matching
+// event ('_' ignores the payload) - a program that is accepted but whose handler can never be delivered to breaks the property.
+func c15DeclaredTypes(w *fw.Worker) {
+	for _, name := range c15Order {
+		sig := ref.EventSigs[name]
+		for pos := range sig {
+			for _, pname := range []string{"_", "p"} {
+				var ps []string
+				for i, t := range sig {
+					n, ty := fmt.Sprintf("q%d", i), t.String()
+					if i == pos {
+						n = pname
+						if t.K == pt.Num {
+							ty = "string"
+						} else {
+							ty = "num"
+						}
+					} else {
+						n = "_"
+					}
+					ps = append(ps, n+":"+ty)
+				}
+				src := "on " + name + " " + strings.Join(ps, " ") + "\n    print \"ran\"\nend\n"
+				seq := []c15Event{{name, c15Payloads[name][0]}}
+				in := c15Input{Src: src, Events: encodeEvents(seq)}
+				w.RunCase("declared\x00"+src, func() *fw.Violation {
+					w.Nontrivial()
+					w.Count("wrongly-typed-declarations", 1)
+					return checkC15Declared(in.Src, seq)
+				})
+			}
+		}
+	}
+}
+
+func checkC15Declared(src string, seq []c15Event) *fw.Violation {
+	in := c15Input{Src: src, Events: encodeEvents(seq)}
+	var evs []evaluator.Event
+	for _, e := range seq {
+		evs = append(evs, evaluator.Event{Name: e.Name, Params: e.Payload})
+	}
+	o := run.Run(src, run.Opts{Events: evs})
+	switch {
+	case o.Class == "gopanic":
+		return &fw.Violation{Sub: "declared-types", Signature: "gopanic:" + run.PanicSite(o.GoPanic), What: "host panic while handling events", Input: in, Observed: o.GoPanic}
+	case o.Class == "parse-error":
+		return nil // rejected: nothing runs (C05's business)
+	case o.Class != "ok" || fmt.Sprint(o.EventErrs) != "[ok]" || run.TraceString(o.Trace) != run.TraceString([]string{"print:ran\n"}):
+		return &fw.Violation{Sub: "declared-types", Signature: "accepted-handler-does-not-run", What: "the parser accepts a handler whose declared parameter type differs from the event's payload, and a delivered event does not run it exactly once",
+			Input: in, Expected: "rejected at parse time, or the handler runs once", Observed: fmt.Sprint(o.Class, " ", o.EventErrs, " ", o.Err, " ", run.Show(o.Trace))}
+	}
+	return nil
+}
+
 func encodeEvents(seq []c15Event) []c15Event {
 	out := make([]c15Event, len(seq))
 	for i, e := range seq {
@@ -322,6 +380,9 @@ func decodeEvents(seq []c15Event, sigs map[string][]*pt.Type) []c15Event {
 func replayC15(sub string, in json.RawMessage) *fw.Violation {
 	var d c15Input
 	json.Unmarshal(in, &d)
+	if sub == "declared-types" {
+		return checkC15Declared(d.Src, decodeEvents(d.Events, ref.EventSigs))
+	}
 	prog, errs, gp := run.Parse(d.Src)
 	if prog == nil {
 		return &fw.Violation{Sub: sub, Signature: "replay-parse", What: fmt.Sprint(errs, gp), Input: d}
